@@ -162,7 +162,7 @@ func toChunk(peer *Peer, index uint32, begin uint32) uint32 {
 func fromChunk(peer *Peer, chunk uint32) (uint32, uint32) {
 	ps := peer.Pieces.PieceSize()
 	index := chunk / (ps / config.ChunkSize)
-	begin := (chunk * config.ChunkSize) % ps
+	begin := (chunk % (ps / config.ChunkSize)) * config.ChunkSize
 	return index, begin
 }
 
